@@ -1,6 +1,7 @@
 #!/bin/bash
 # usage: try_mutant.sh <patch.diff> <prop> [<prop>...]   -- applies the patch to /repo, runs the checks, reverts
 set -u
+export VERIF_EVIDENCE_DIR=/tmp/verif-mutant-evidence
 patch=$1; shift
 cd /repo || exit 9
 if [ -n "$(git status --porcelain)" ]; then echo "/repo not clean"; exit 9; fi
